@@ -226,7 +226,7 @@ func buildC02(k *unitKind, cs c02Case, seed int64) (st *Stream, finalPkt int, ok
 	var ps []*ref.Pkt
 	exp := map[uint16][]ExpData{}
 	if k.NeedsPAT {
-		pat := modelPAT(1, u.PID)
+		pat := modelPAT(0, 0x10, 1, u.PID, 2, 0x1fe0) // the usual DVB layout: the network entry first, the programme behind it
 		c0 := uint8(7)
 		up := PSIUnit(0, 0, [][]byte{SecPAT(pat, ref.SecHdr{CNI: true})}, []ExpData{{Kind: "PAT", Table: pat}})
 		ps = append(ps, Packetize(up, nil, &c0, true)...)
